@@ -59,10 +59,14 @@ def discharge(ob, timeout_ms=10000, use_cvc5=True):
     # portfolio: z3's quantifier instantiation is unstable (the same query may take 0.05 s or > 30 s depending on the seed and
     # on address-space layout), so several short attempts with different seeds come before the long ones
     # (seed, budget factor, relevance-filter rounds or None for all hypotheses)
-    schedule = ((0, 0.25, None), (0, 0.25, 0), (0, 0.25, 2), (7, 0.25, None), (7, 0.25, 3), (23, 0.25, 0), (101, 0.5, 4), (0, 1.0, None), (7, 2.0, None))
+    # a round of very short attempts first (an obligation that is provable at all is usually proved in well under 0.1 s by SOME
+    # seed / mode; which one depends on the machine), then the longer ones
+    schedule = ((0, 0.05, None), (3, 0.05, 0), (11, 0.05, None), (42, 0.05, 2),
+                (0, 0.25, None), (0, 0.25, 0), (0, 0.25, 2), (7, 0.25, None), (7, 0.25, 3), (23, 0.25, 0), (101, 0.5, 4),
+                (0, 1.0, None), (0, 1.0, 0), (7, 2.0, None))
     for attempt, (seed, factor, rounds) in enumerate(schedule):
         last = attempt == len(schedule) - 1
-        _discharge_once(ob, max(1000, int(timeout_ms * factor)), use_cvc5 and last, seed, rounds)
+        _discharge_once(ob, max(400, int(timeout_ms * factor)), use_cvc5 and last, seed, rounds)
         if ob.result != "open" or ob.kind in ("vacuity", "vacuity-exit"):
             break
         ob.result_prev = ob.detail
